@@ -33,7 +33,7 @@ def run_history(rac, ops, section_fn="Manager.set_value"):
             bad = [None]
         if bad:
             hist = "; ".join(G.opstr(o) for o in done)
-            k1 = orc.sibling_feed()
+            k1 = orc.sibling_feed() or G.declared_cycle(w.m)
             key = ("K1:sibling-feed " if k1 else "history ") + hist
             tail = "exp = %r\nimport math\n" % {G.locstr(l): v for l, v in orc.expected().items()} + \
                 "act = {k: eval(k) for k in exp}\nbad = {k: (act[k], exp[k]) for k in exp if abs(act[k]-exp[k]) > 1e-9*max(1,abs(exp[k]))}\n" \
